@@ -556,7 +556,26 @@ namespace Pg.C14
 
 /-! ## `Swap.mutate` -/
 
-theorem swapList_perm (l : List DNA) (i j : Nat) : (swapList l i j).Perm l := by
+theorem subVal_rebindEntry (i : Nat) (d : DNA) : subVal (rebindEntry i d) = subVal d := by
+  cases d <;> simp [rebindEntry, rebind, subVal]
+
+theorem entryOk_rebindEntry (cands : List GSpec) (i : Nat) (d : DNA) :
+    entryOk cands (rebindEntry i d) = entryOk cands d := by
+  cases d with
+  | sub b v d =>
+    simp only [rebindEntry, entryOk]
+    cases cands[v]? with
+    | none => rfl
+    | some c => simp only []; rw [valid_rebind]
+  | space _ => simp [rebindEntry, rebind, entryOk]
+  | choices _ => simp [rebindEntry, rebind, entryOk]
+  | float _ => simp [rebindEntry, rebind, entryOk]
+
+/-- the swap (with re-binding) keeps length, entry validity and the multiset of values. -/
+theorem swapList_spec (cands : List GSpec) (l : List DNA) (i j : Nat) :
+    (swapList l i j).length = l.length ∧
+    ((∀ s ∈ l, entryOk cands s = true) → ∀ s ∈ swapList l i j, entryOk cands s = true) ∧
+    ((swapList l i j).map subVal).Perm (l.map subVal) := by
   unfold swapList
   cases hi : l[i]? with
   | none => simp
@@ -565,9 +584,20 @@ theorem swapList_perm (l : List DNA) (i j : Nat) : (swapList l i j).Perm l := by
     | none => simp
     | some b =>
       simp only []
-      obtain ⟨hi', rfl⟩ := List.getElem?_eq_some_iff.mp hi
-      obtain ⟨hj', rfl⟩ := List.getElem?_eq_some_iff.mp hj
-      exact List.set_set_perm hi' hj'
+      refine ⟨by simp, ?_, ?_⟩
+      · intro hall s hs
+        rcases List.mem_or_eq_of_mem_set hs with hs | rfl
+        · rcases List.mem_or_eq_of_mem_set hs with hs | rfl
+          · exact hall s hs
+          · rw [entryOk_rebindEntry]; exact hall b (List.mem_of_getElem? hj)
+        · rw [entryOk_rebindEntry]; exact hall a (List.mem_of_getElem? hi)
+      · rw [List.map_set, List.map_set, subVal_rebindEntry, subVal_rebindEntry]
+        obtain ⟨hi', rfl⟩ := List.getElem?_eq_some_iff.mp hi
+        obtain ⟨hj', rfl⟩ := List.getElem?_eq_some_iff.mp hj
+        have h1 : i < (l.map subVal).length := by simpa using hi'
+        have h2 : j < (l.map subVal).length := by simpa using hj'
+        have := List.set_set_perm (as := l.map subVal) h1 h2
+        simpa using this
 
 mutual
   theorem swapAt_valid : ∀ (d : DNA) (g : GSpec) (coll : Bool) (c i j : Nat),
@@ -591,10 +621,10 @@ mutual
             | true => simpa using hv
             | false =>
               simp only [Bool.false_eq_true, if_false]
-              have hp := swapList_perm subs i j
+              obtain ⟨hl', hall', hp⟩ := swapList_spec cands subs i j
               rw [valid_choices_iff]
-              refine ⟨by rw [hp.length_eq]; exact hlen, fun s hs => hall s (hp.mem_iff.mp hs),
-                fun hd => (List.Perm.nodup_iff (hp.map subVal)).mpr (hnd hd), fun h => by cases h⟩
+              refine ⟨by rw [hl']; exact hlen, hall' hall,
+                fun hd => (List.Perm.nodup_iff hp).mpr (hnd hd), fun h => by cases h⟩
           · have hvs : validSubs cands subs = true := by
               rw [validSubs_eq_all, List.all_eq_true]; exact hall
             obtain ⟨hvl, hvals, hll⟩ := swapAtSubs_valid subs cands (if (k == 1 || coll) = true then c else c - 1) i j hvs
